@@ -440,7 +440,7 @@ class Reader:
 
     def decl(self, v, st, ctx):
         ts = v['t']['s']
-        if ts.startswith(('std::lock_guard<', 'std::unique_lock<', 'std::scoped_lock<')):
+        if ts.startswith(('std::lock_guard<', 'std::unique_lock<', 'std::scoped_lock<', 'std::shared_lock<')):
             st.effects.append(('lock', pp(v.get('init')), None))
             return [st]
         init = v.get('init')
